@@ -94,15 +94,20 @@ def run_bmadx_correspondence(ctx, prop: str, n: int, ulps: float = 16384.0, weak
                      drv.call("btdc", p["L"], p["V"], p["phase"], p["freq"], p["mx"], p["my"], p["tilt"], E.MC2,
                               E.CLIGHT, E.PI, En, *v),
                      real_track(E.build(p), v, En)))
-        # conversions
+        # conversions: the rest energy is an argument of the functions — electron (what the elements pass), and for a
+        # third of the cases a muon or a proton with a reference energy of 1.5 / 3 / 50 rest energies
+        mc2, Ec = E.MC2, En
+        if rng.random() < 0.34:
+            mc2 = float(E.pick(rng, 105.6583755e6, 938.27208816e6))
+            Ec = mc2 * float(E.pick(rng, 1.5, 3.0, 50.0))
         tau, delta = float(rng.normal() * 1e-4), float(rng.uniform(-0.03, 0.03))
         z, pz, p0c = bmadx.cheetah_to_bmad_z_pz(torch.tensor([tau], dtype=F64), torch.tensor([delta], dtype=F64),
-                                                torch.tensor(En, dtype=F64), E.MC2)
-        pend.append(("cheetah_to_bmad_z_pz", {"tau": tau, "delta": delta}, En, None,
-                     drv.call("tobmad", tau, delta, En, E.MC2), [float(z), float(pz), float(p0c)]))
-        t2, d2, e2 = bmadx.bmad_to_cheetah_z_pz(z, pz, p0c, E.MC2)
-        pend.append(("bmad_to_cheetah_z_pz", {"z": float(z), "pz": float(pz)}, En, None,
-                     drv.call("tocheetah", float(z), float(pz), float(p0c), E.MC2), [float(t2), float(d2), float(e2)]))
+                                                torch.tensor(Ec, dtype=F64), mc2)
+        pend.append(("cheetah_to_bmad_z_pz", {"tau": tau, "delta": delta, "mc2": mc2}, Ec, None,
+                     drv.call("tobmad", tau, delta, Ec, mc2), [float(z), float(pz), float(p0c)]))
+        t2, d2, e2 = bmadx.bmad_to_cheetah_z_pz(z, pz, p0c, mc2)
+        pend.append(("bmad_to_cheetah_z_pz", {"z": float(z), "pz": float(pz), "mc2": mc2}, Ec, None,
+                     drv.call("tocheetah", float(z), float(pz), float(p0c), mc2), [float(t2), float(d2), float(e2)]))
     replies = drv.run()
     bad = []
     for name, p, En, v, idx, real in pend:
